@@ -129,9 +129,19 @@ def run(case):
     for (info, t, c), (nm, et, ec) in zip(hdr.questions, case["question"]):
         if (t, c) != (et, ec):
             raise Violation("header", f"question type/class on the wire {t}/{c}, generated {et}/{ec}", "wire-question")
+    padded = bool((case.get("edns") or {}).get("pad"))
+    p_opts = list(p.options)
+    if padded:
+        # the renderer appends exactly one PADDING option (RFC 7830) as the last one
+        if not p_opts or int(p_opts[-1].otype) != 12:
+            raise Violation("roundtrip", "padding was requested but the last option of the parsed message is not PADDING", "pad-missing")
+        if len(w) % case["edns"]["pad"] != 0:
+            raise Violation("roundtrip", f"padding to {case['edns']['pad']} requested, rendered length {len(w)}", "pad-length")
+        p_opts = p_opts[:-1]
+        classes.append("padded")
     mo = [o.to_wire() for o in m.options]
-    po = [o.to_wire() for o in p.options]
-    if [int(o.otype) for o in m.options] != [int(o.otype) for o in p.options] or (mo != po and not (case.get("edns") or {}).get("normalizing")):
+    po = [o.to_wire() for o in p_opts]
+    if [int(o.otype) for o in m.options] != [int(o.otype) for o in p_opts] or (mo != po and not (case.get("edns") or {}).get("normalizing")):
         raise Violation("roundtrip", f"EDNS options changed: {mo!r} -> {po!r}", "options")
     if type(p) is not type(m):
         raise Violation("roundtrip", f"parsed message class {type(p).__name__} != {type(m).__name__}", "class")
@@ -239,6 +249,6 @@ def parts(tier):
     return [
         Part("messages", run, strategy=MG.message(), n={"quick": 5000, "thorough": 300000},
              require={"pointer": 1000, "extended-rcode": 100, "update-any-none": 100, "size>0x4000": 20,
-                      "origin": 300, "relative-255": 10, "update-class-not-IN": 50, "edns": 1000, "opcode:5": 200, "opcode:4": 100},
+                      "origin": 300, "relative-255": 10, "update-class-not-IN": 50, "padded": 300, "edns": 1000, "opcode:5": 200, "opcode:4": 100},
              shards={"quick": 16, "thorough": 16}),
     ]
